@@ -157,6 +157,31 @@ for j := 0; ; j += 2 {
 		RETNIL
 	}
 }`, "for:3cn"),
+		Raw("acc-switch-with-yieldfrom-init-and-yield-free-cases", `
+func §two(base int) ITER[int] GEN[int]{
+	YIELD(base + 1)
+	YIELD(base + 2)
+	RETNIL
+}GEN
+func §gen() ITER[int] GEN[int]{
+	YIELD(1)
+	switch YFROM(§two(10)); tr.N(1, 2) {
+	case 0:
+		tr.E(2)
+	default:
+		tr.E(3)
+	}
+	for YFROM(§two(20)); tr.B(4); tr.E(5) {
+		tr.E(6)
+	}
+	switch YFROM(§two(30)); x := tr.Any(7, 2).(type) {
+	case int:
+		tr.U(x)
+	}
+	YIELD(9)
+	RETNIL
+}GEN
+`+StdEntry, "init:yfrom"),
 		G("acc-named-result-bare-return", `
 YIELD(1)
 if tr.B(1) {
